@@ -50,14 +50,17 @@ def renderSession (ending : String) (events : Array String) : String :=
   ending ++ " " ++ toString nerr ++ " :" ++
     (if events.isEmpty then "" else " " ++ " | ".intercalate events.toList)
 
-/-- Loop `readFrom` until end of input (`verif_read_all`). -/
-partial def runSession (r : Reader) (events : Array String) : String :=
-  let errs (n : Nat) : Array String := events ++ Array.replicate n "err"
-  match readFrom r with
-  | .command c n r' => runSession r' ((errs n).push (renderCommand c))
-  | .eof n _ => renderSession "eof" (errs n)
-  | .exit code n => renderSession ("exit " ++ toString code) (errs n)
-  | .panic _ n => renderSession "panic" (errs n)
+/-- `Cmd.session` (loop `readFrom` until end of input, = `verif_read_all`), rendered. -/
+def runSession (r : Reader) : String :=
+  let s := Cmd.session r
+  let events := s.events.map fun
+    | some c => renderCommand c
+    | none => "err"
+  let ending := match s.ending with
+    | .eof => "eof"
+    | .exit code => "exit " ++ toString code
+    | .panic _ => "panic"
+  renderSession ending events.toArray
 
 /-- The domain of `Command::try_from`: a non-empty trimmed line without separators. -/
 def validLine (line : List Char) : Bool :=
